@@ -24,6 +24,7 @@ EXPLANATION = (
     "SchemaErrors, SchemaDefinitionError, SchemaInitError, TypeError for non-dataframes) or is one of the sites "
     "enumerated in the confirmed table. (R5) every Index.to_frame() conversion in the pandas backends allows duplicate level names (allow_duplicates=True or the shared _multiindex_to_frame helper), since it runs outside the user-check fence. R4 also discharges a raise under `X.attr is None` in a private helper when every reference to the helper sits under `X.attr is not None`. " 
     " (R7) both joint-uniqueness core checks intersect the schema-named columns with the frame's columns before selecting them (the check runs although column presence already failed in lazy mode; KeyError / ColumnNotFoundError is not a documented outcome); R1 also covers save / override / restore written over a collection (saved = [x.a for x in xs] ... for x, old in zip(xs, saved): x.a = old). " 
+    " R7 also requires an empty selection (none of the listed columns present) to be skipped. " 
     "NOT decided: implicit exceptions raised inside pandas/polars; "
     "UnboundLocalError caused by value-level invariants (a handler running before the assignments of its try body, an empty loop) - R6 decides the branch-induced part only: (R6) no function reachable from validate reads a local that a branch-only path from its entry leaves unassigned (CFG may-analysis with correlated guards pruned)."
 )
